@@ -104,6 +104,15 @@ Theorem C03_sized_branch32 : forall (E : encoder) m st dol s name op r lbl d,
   - 2 ^ 31 <= loc s -> loc s + 6 < 2 ^ 31 ->
   sized E m st dol s (do_jcc s name [op]).
 Proof. exact sized_branch32. Qed.
+(* far JMP seg:off with numeric sides, both modes: 8 / 7 bytes reserved, 66 EA id iw / EA id iw emitted *)
+Theorem C03_sized_farjmp : forall (E : encoder) m st dol s op r dt l r0 sv ov,
+  eval_top (env_of s) op = Ev (ESeg dt l (Some r0)) r ->
+  far_dt_ok dt = true -> seg_num l = Some sv -> seg_num r0 = Some ov ->
+  -32768 <= sv <= 32767 -> - 2 ^ 31 <= ov < 2 ^ 31 ->
+  - 2 ^ 31 <= loc s -> loc s + 8 < 2 ^ 31 ->
+  sized E m st dol s (do_jcc s "JMP" [op]).
+Proof. exact sized_farjmp. Qed.
+Print Assumptions C03_sized_farjmp.
 Theorem C03_size_jmp32 : forall rel, zlen (gen_jmp M32 rel) = estimate_jump "JMP" M32.
 Proof. exact size_jmp32. Qed.
 Theorem C03_size_call32 : forall rel, zlen (gen_call M32 rel) = estimate_jump "CALL" M32.
